@@ -179,3 +179,14 @@ class OptimizeResult(dict):
             raise ValueError("""The key is not part of OptimizeResult._keys""")
         else:
             dict.__setitem__(self, key, copy.deepcopy(val))
+
+    def update(self, *args, **kwargs):
+        # dict.update and dict.setdefault bypass __setitem__: route them
+        # through it so that the set of fields stays fixed and values are copied
+        for key, val in dict(*args, **kwargs).items():
+            self[key] = val
+
+    def setdefault(self, key, default=None):
+        if not dict.__contains__(self, key):
+            self[key] = default
+        return self[key]
